@@ -99,6 +99,13 @@ func init() {
 		externals[n] = nop
 	}
 	externals["log.New"] = func(fr *frame, args []value) value { return native{nil} }
+	externals["os.Getwd"] = func(fr *frame, args []value) value { return tuple{"/zzv/cwd", iface{}} }
+	// goldmark's parser package is not interpreted; its context keys are plain counters
+	ctxKeys := 0
+	externals["github.com/yuin/goldmark/parser.NewContextKey"] = func(fr *frame, args []value) value {
+		ctxKeys++
+		return ctxKeys
+	}
 
 	// ---- errors ----
 	externals["fmt.Errorf"] = func(fr *frame, args []value) value {
